@@ -30,7 +30,8 @@ Who calls them, as in the code:
   of `A`, the method's arguments evaluated in `A1`, the method's own call context a child of `A1`.
   `and` / `or` take both operands lazily: each operand runs in its own child of the operator's call
   context.  With `with_context=True` (`->`) the right side runs *in* the context object it is given.
-* `system.def_`: registers the wrapper in the call context it returns; the wrapper's lambda captured
+* `system.def_`: registers the wrapper (under the name without trailing underscores, `fnKey`) in the call
+  context it returns; the wrapper's lambda captured
   that same context; a call `f(..)` allocates the wrapper's call context (child of the caller) and the
   application context (child of the captured one).
 * `queries.collection_attribution` (`xs.name`): per element a `Delegate` child of the call context,
@@ -574,7 +575,7 @@ def callFnS (ev : EvS) (C : Nat) (f : Fn) (args : List Expr) (kw : List (Expr ×
         match no with
         | .data (.val (.str name)) => do
           let D ← childCtx C
-          regFun D name body D          -- the lambda captured `D`; the wrapper is registered in `D`
+          regFun D (fnKey name) body D  -- the lambda captured `D`; registered in `D` under `name.rstrip('_')`
           pure (.ctx D)
         | o => if isLazyS o then fail .outOfDomain else fail .noFunction
       | _ => fail .noFunction
@@ -684,7 +685,7 @@ def stepS (ev : EvS) (C : Nat) : Expr → M ObjS
   | .member e name => do let r ← ev C e; memberOfS C r name
   | .call f args kw => callFnS ev C f args kw
   | .ucall f args kw => do
-    match ← getFunS C f with
+    match ← getFunS C (fnKey f) with      -- `get_functions`: the name without trailing underscores
     | none => fail .unknownFunction
     | some (body, D) => do
       let names ← liftR (kwNames kw)
